@@ -44,7 +44,7 @@ S0 == [gen |-> 0, ph |-> "init", mods |-> [m \in Mods |-> "none"], ifs |-> [i \i
        oldDisc |-> {}, run |-> "no", openR |-> {}, freshR |-> {}, pend |-> FALSE, shutOpen |-> {},
        shutAny |-> FALSE, shutDone |-> FALSE, stopDone |-> FALSE, hooks |-> 0, downs |-> 0,
        crashInj |-> {}, ishReq |-> {}, readyAt |-> 0, mode |-> "", nif |-> 0, nameform |-> "plain",
-       reqGen |-> {}, kinds |-> <<>>, aborted |-> FALSE, modsLeft |-> {}, devs |-> {}, rej |-> ""]
+       reqGen |-> {}, kinds |-> <<>>, early |-> FALSE, aborted |-> FALSE, modsLeft |-> {}, devs |-> {}, rej |-> ""]
 
 Fail(s, why) == [s EXCEPT !.rej = why]
 (* the first clause (in list order) that does not hold, "" if all hold *)
@@ -73,10 +73,14 @@ H_cfg(s, e) == {[s EXCEPT !.nif = e.nif, !.mode = e.mode, !.nameform = e.namefor
 (* constructor has to come up; one that comes up after the time-out may be given up                                *)
 KindOf(s, i) == IF s.gen >= 1 /\ s.gen <= Len(s.kinds) /\ i <= Len(s.kinds[s.gen]) THEN s.kinds[s.gen][i] ELSE "?"
 ComesUp(s, i) == KindOf(s, i) \in {"ok", "inuse1", "inuse2", "inuse3", "inuse4", "slow"}
+(* address in use five times and more: TCPServer gives up (after 4.5 s); permission denied / refused: at once;    *)
+(* an option the interface class does not know: the interface must not serve                                      *)
+GivesUp(s, i) == KindOf(s, i) \in {"inuse5", "inuse6", "inuse7", "inuse8", "inuse9", "denied", "fail"}
+TakesLong(s, i) == KindOf(s, i) \in {"late", "-"}
 StopAsked(s) == s.stopDone \/ s.shutAny \/ s.ishReq # {} \/ s.openR # {} \/ s.pend
 
 H_init(s, e) ==
-  Chk(s, << <<s.mode # "noif", "init.no interface given but the constructor accepts">>,
+  Chk(s, << <<s.mode # "noif", "init.no interface but accepted">>,
             <<e.name = Stem[s.nameform], "init.name is the file stem">>,
             <<e.main = 1, "init.main interface">>,
             <<ToSet(e.handlers) = {"sigint", "sigterm"}, "init.both signal handlers installed">>,
@@ -88,9 +92,9 @@ H_init_exc(s, e) ==
 H_boot(s, e) ==
   Chk(s, << <<e.g = s.gen + 1, "boot.generation number">>,
             <<s.run \in {"no", "run"}, "boot.after run() ended">>,
-            <<s.gen = 0 \/ s.ph = "hooked", "G5.boot before the previous generation is down">>,
-            <<s.gen = 0 \/ s.disc # "open", "G5.responder of the previous generation still open">>,
-            <<~s.shutDone, "S1.generation after shutdown() returned">>,
+            <<s.gen = 0 \/ s.ph = "hooked", "G5.boot before previous is down">>,
+            <<s.gen = 0 \/ s.disc # "open", "G5.old responder still open">>,
+            <<~s.shutDone, "S1.generation after shutdown()">>,
             <<s.gen = 0 \/ RestartWanted(s), "R1.generation without restart request">> >>,
       {NewGen(s, e.g)})
 
@@ -112,7 +116,7 @@ H_ready(s, e) ==
 
 H_poll(s, e) ==
   Chk(s, << <<e.g = s.gen \/ e.g \in s.modsLeft, "G5.poll of a generation that is gone">>,
-            <<e.g # s.gen \/ s.mods[e.m] = "started", "G5.poll of a module that is not started / shut down">> >>, {s})
+            <<e.g # s.gen \/ s.mods[e.m] = "started", "G5.poll of a module not started">> >>, {s})
 
 H_if_begin(s, e) ==
   Chk(s, << <<e.g = s.gen /\ s.ph = "ready", "if_begin.phase">>,
@@ -121,7 +125,8 @@ H_if_begin(s, e) ==
 
 H_bind(s, e) ==
   Chk(s, << <<e.g = s.gen /\ s.thr[e.i] = "run" /\ s.ifs[e.i] \in {"none", "failed"}, "bind.state">>,
-            <<s.ph \in {"ready", "up"} /\ AllMods(s, "started"), "G1.listening without started modules">> >>,
+            <<s.ph \in {"ready", "up"} /\ AllMods(s, "started"), "G1.listening without started modules">>,
+            <<~GivesUp(s, e.i), "bind.retry budget exceeded, listens">> >>,
       {[s EXCEPT !.ifs[e.i] = "bound"]})
 
 H_bindfail(s, e) ==
@@ -131,7 +136,8 @@ H_bindfail(s, e) ==
 H_serve_b(s, e) ==
   Chk(s, << <<e.g = s.gen /\ s.ifs[e.i] = "bound", "serve_b.state">>,
             <<s.ph \in {"ready", "up"} /\ AllMods(s, "started"), "G1.serving without started modules">>,
-            <<~s.stopDone /\ ~s.shutDone, "S1.serving loop entered after a stop request returned">> >>,
+            <<KindOf(s, e.i) # "opts", "serve_b.unknown option accepted">>,
+            <<~s.stopDone /\ ~s.shutDone, "S1.serves after a stop returned">> >>,
       {[s EXCEPT !.ifs[e.i] = "serving"]})
 
 H_serve_e(s, e) ==
@@ -145,7 +151,7 @@ H_close(s, e) ==
 
 H_if_end(s, e) ==
   Chk(s, << <<e.g = s.gen /\ s.thr[e.i] = "run", "if_end.state">>,
-            <<s.ifs[e.i] \in {"none", "failed", "closed", "crashclosed"}, "if_end.thread ends leaving its socket open">> >>,
+            <<s.ifs[e.i] \in {"none", "failed", "closed", "crashclosed"}, "if_end.leaves its socket open">> >>,
       {[s EXCEPT !.thr[e.i] = "end"]})
 
 H_ish_b(s, e) == {IF e.g = s.gen THEN [s EXCEPT !.ishReq = @ \cup {e.i}] ELSE s}
@@ -154,13 +160,14 @@ H_report(s, e) ==
   IF s.ph = "ready"
   THEN Chk(s, << <<e.g = s.gen /\ e.i \in Configured(s), "report.which">>,
                  <<s.rep[e.i] = "none", "G3.reported twice">>,
-                 <<e.i \notin Listening(s), "G3.a listening interface reported as not started">>,
-                 <<~ComesUp(s, e.i) \/ StopAsked(s) \/ e.i \in s.crashInj, "G3.an interface that can be started is given up">>,
+                 <<e.i \notin Listening(s), "G3.listening one reported dead">>,
+                 <<~ComesUp(s, e.i) \/ StopAsked(s) \/ e.i \in s.crashInj, "G3.startable interface given up">>,
                  <<e.kind = "timeout" => e.vt - s.readyAt >= StartTimeout - 1, "G3.time-out reported before 12 s">>,
-                 <<e.kind = "fail" => s.ifs[e.i] \in {"failed", "closed", "crashclosed"}, "G3.failure reported of an interface that did not fail">> >>,
+                 <<e.kind = "timeout" => (TakesLong(s, e.i) \/ StopAsked(s)), "G3.time-out reported of a prompt one">>,
+                 <<e.kind = "fail" => s.ifs[e.i] \in {"failed", "closed", "crashclosed"}, "G3.failure reported, did not fail">> >>,
            {[s EXCEPT !.rep[e.i] = e.kind]})
   ELSE Chk(s, << <<e.g = s.gen /\ s.ph = "up" /\ ThreadsGone(s), "report.phase">>,
-                 <<s.ifs[e.i] = "crashclosed" /\ e.kind = "fail", "report.a serving loop that did not fail">> >>,
+                 <<s.ifs[e.i] = "crashclosed" /\ e.kind = "fail", "report.loop that did not fail">> >>,
            {[s EXCEPT !.ifs[e.i] = "closed"]})
 
 StartupOver(s, e) == e.vt - s.readyAt <= StartTimeout + 1
@@ -168,38 +175,38 @@ AllReported(s) == \A i \in Configured(s) : i \in Listening(s) \/ s.rep[i] # "non
 
 H_noiface(s, e) ==
   Chk(s, << <<e.g = s.gen /\ s.ph = "ready", "noiface.phase">>,
-            <<Listening(s) = {}, "G4.gives up although an interface listens">>,
-            <<AllReported(s), "G3.an interface that did not come up is not reported">>,
-            <<StartupOver(s, e), "G3.start-up takes longer than the time-out">> >>,
+            <<Listening(s) = {}, "G4.gives up although one listens">>,
+            <<AllReported(s), "G3.dead interface not reported">>,
+            <<StartupOver(s, e), "G3.start-up longer than time-out">> >>,
       {[s EXCEPT !.ph = "noif"]})
 
 H_up(s, e) ==
   Chk(s, << <<e.g = s.gen /\ s.ph = "ready", "up.phase">>,
-            <<ToSet(e.ann) = Listening(s) \ {i \in Ifs : s.rep[i] # "none"}, "G2._interfaces is not the set of listening interfaces">>,
-            <<ToSet(e.named) = ToSet(e.ann), "G2.log line names other interfaces than those listening">>,
+            <<ToSet(e.ann) = Listening(s) \ {i \in Ifs : s.rep[i] # "none"}, "G2._interfaces is not what listens">>,
+            <<ToSet(e.named) = ToSet(e.ann), "G2.log line names other interfaces">>,
             <<Listening(s) # {}, "G4.goes on without any interface">>,
-            <<AllReported(s), "G3.an interface that did not come up is not reported">>,
-            <<StartupOver(s, e), "G3.start-up takes longer than the time-out">> >>,
+            <<AllReported(s), "G3.dead interface not reported">>,
+            <<StartupOver(s, e), "G3.start-up longer than time-out">> >>,
       {[s EXCEPT !.ph = "up", !.ann = ToSet(e.ann)]})
 
 H_disc_new(s, e) ==
   Chk(s, << <<e.g = s.gen /\ s.ph = "up" /\ s.disc = "none", "disc_new.phase">>,
-            <<ToSet(e.given) = s.ann, "G2.responder is given other interfaces than announced">>,
+            <<ToSet(e.given) = s.ann, "G2.responder given other interfaces">>,
             <<ToSet(e.given) \subseteq (Listening(s) \cup s.crashInj) \/ s.stopDone \/ s.ishReq # {},
-              "G2.responder created for interfaces that do not listen">> >>,
+              "G2.responder for dead interfaces">> >>,
       {[s EXCEPT !.disc = "open"]})
 
 H_announce(s, e) ==
-  Chk(s, << <<(e.g = s.gen /\ s.disc = "open") \/ e.g \in s.oldDisc, "announce.by a responder that is closed / gone">>,
-            <<e.g \in s.oldDisc \/ e.p \in Listening(s) \/ e.p \in s.crashInj, "G2.announced a port that does not listen">> >>, {s})
+  Chk(s, << <<(e.g = s.gen /\ s.disc = "open") \/ e.g \in s.oldDisc, "announce.by a closed responder">>,
+            <<e.g \in s.oldDisc \/ e.p \in Listening(s) \/ e.p \in s.crashInj, "G2.announced a dead port">> >>, {s})
 
 H_disc_end(s, e) ==
-  Chk(s, << <<e.g # s.gen \/ s.disc = "closed", "disc_end.responder thread ends by itself">> >>, {s})
+  Chk(s, << <<e.g # s.gen \/ s.disc = "closed", "disc_end.responder ends by itself">> >>, {s})
 
 H_notify(s, e) ==
   Chk(s, << <<e.what = "INIT" => s.ph \in {"init", "hooked"}, "notify.initializing">>,
             <<e.what = "READY" => (s.ph = "up" /\ s.disc # "none"), "notify.ready before the node serves">>,
-            <<e.what = "RELOADING" => (s.ph = "stopped" /\ RestartWanted(s)), "notify.reloading without restart request">>,
+            <<e.what = "RELOADING" => (s.ph = "stopped" /\ RestartWanted(s)), "notify.reloading without restart">>,
             <<e.what = "STOPPING" => (s.ph = "stopped" /\ (~s.pend \/ s.shutAny)), "notify.stopping although restarting">> >>, {s})
 
 H_disc_close(s, e) ==
@@ -207,13 +214,13 @@ H_disc_close(s, e) ==
 
 H_stopped(s, e) ==
   Chk(s, << <<e.g = s.gen /\ (s.ph \in {"up", "noif"} \/ (s.ph = "ready" /\ (s.shutAny \/ RestartWanted(s)))), "stopped.phase">>,
-            <<ThreadsGone(s) /\ Listening(s) = {}, "G5.wind-down begins while an interface thread lives">>,
-            <<\A i \in Ifs : s.ifs[i] # "crashclosed", "G3.a failed serving loop is not reported">> >>,
+            <<ThreadsGone(s) /\ Listening(s) = {}, "G5.wind-down with live interface">>,
+            <<\A i \in Ifs : s.ifs[i] # "crashclosed", "G3.failed loop not reported">> >>,
       {[s EXCEPT !.ph = "stopped"]})
 
 H_mdown(s, e) ==
-  Chk(s, << <<e.g = s.gen /\ s.ph \in {"stopped", "noif"}, "G1.module shut down while the node serves">>,
-            <<s.mods[e.m] = "started", "G5.module shut down twice / never started">> >>,
+  Chk(s, << <<e.g = s.gen /\ s.ph \in {"stopped", "noif"}, "G1.module shut down while serving">>,
+            <<s.mods[e.m] = "started", "G5.module shut down twice">> >>,
       {[s EXCEPT !.mods[e.m] = "down"]})
 
 H_hook(s, e) ==
@@ -226,7 +233,7 @@ H_hook(s, e) ==
 H_down(s, e) ==
   Chk(s, << <<s.downs = 0, "S2.'shut down' logged twice">>,
             <<s.gen = 0 \/ (s.ph \in {"stopped", "hooked"} /\ AllMods(s, "down")), "down.phase">>,
-            <<~(s.pend /\ ~s.shutAny), "R2.ends although a restart was accepted">> >>,
+            <<~(s.pend /\ ~s.shutAny), "R2.ends despite accepted restart">> >>,
       {[s EXCEPT !.ph = "end", !.downs = 1]})
 
 H_ret(s, e) ==
@@ -235,19 +242,22 @@ H_ret(s, e) ==
   ELSE Chk(s, << <<s.ph \in {"end", "noif"}, "ret.phase">>,
                  <<s.ph = "noif" => ~AllMods(s, "none"), "ret.phase">>,
                  <<Listening(s) = {}, "ret.an interface still listens">>,
-                 <<\A m \in Mods : s.mods[m] \in {"none", "down"}, "G4.run() returns leaving modules running">> >>,
+                 <<\A m \in Mods : s.mods[m] \in {"none", "down"}, "G4.returns leaving modules running">> >>,
            {[s EXCEPT !.run = "ret"]})
 
 H_exc(s, e) ==
   Chk(s, << <<s.ph = "boot" /\ ((BadCfg(s) /\ e.exc = "SystemExit") \/ (s.mode = "startexc" /\ e.exc = "RuntimeError")),
               "exc.run() raises">>,
-            <<BadCfg(s) => \A m \in Mods : s.mods[m] # "started", "exc.configuration refused but a module was started">> >>,
+            <<BadCfg(s) => \A m \in Mods : s.mods[m] # "started", "exc.refused but a module started">> >>,
       {[s EXCEPT !.run = "exc"]})
 
+Early(s) == s.early \/ s.ph \in {"init", "boot", "ready"}
 H_req_b(s, e) ==
-  LET s1 == [s EXCEPT !.reqGen = @ \cup {<<e.r, s.gen, s.ph>>}] IN
+  LET s1 == [s EXCEPT !.reqGen = @ \cup {<<e.r, s.gen, s.ph>>}, !.early = Early(s)] IN
   IF e.kind = "restart"
-  THEN {[s1 EXCEPT !.openR = @ \cup {e.r}, !.freshR = IF s.shutDone THEN @ ELSE @ \cup {e.r}]}
+  THEN \* (a node that is already going down - by itself or on request - may ignore the request or restart)
+       {[s1 EXCEPT !.openR = @ \cup {e.r},
+                   !.freshR = IF s.shutDone \/ s.ph \in {"noif", "stopped", "end"} THEN @ ELSE @ \cup {e.r}]}
   ELSE {[s1 EXCEPT !.shutOpen = @ \cup {e.r}, !.shutAny = TRUE]}
 
 (* the request was made and returned inside one generation that had begun and not yet wound down by itself *)
@@ -266,7 +276,8 @@ H_req_e(s, e) ==
 
 (* a signal is a shutdown request; when the handler returns the shutdown has been REQUESTED (the handler may *)
 (* carry it out itself or hand it to another thread): only S2 speaks about it                                  *)
-H_sig_b(s, e) == {[s EXCEPT !.shutOpen = @ \cup {"sig"}, !.shutAny = TRUE, !.reqGen = @ \cup {<<"sig", s.gen, s.ph>>}]}
+H_sig_b(s, e) == {[s EXCEPT !.shutOpen = @ \cup {"sig"}, !.shutAny = TRUE, !.reqGen = @ \cup {<<"sig", s.gen, s.ph>>},
+                             !.early = Early(s)]}
 H_sig_e(s, e) == {[s EXCEPT !.shutOpen = @ \ {"sig"}]}
 
 H_crash(s, e) == {[s EXCEPT !.crashInj = @ \cup {e.i}]}
@@ -276,16 +287,17 @@ H_quiet(s, e) ==
   IF s.aborted THEN {s} ELSE
   Chk(s, << <<~e.livelock /\ e.reqalive = <<>>, "E1.a request never returns">>,
             <<s.openR = {} /\ s.shutOpen = {}, "E1.a request never returns">>,
-            <<s.run = "exc" \/ ~s.shutAny \/ (e.run = "ret" /\ s.run = "ret"), "S2.shutdown requested but run() did not return">>,
-            <<~(s.pend /\ ~s.shutAny /\ s.run # "exc"), "R2.accepted restart request never led to a new generation">>,
+            <<s.run = "exc" \/ ~s.shutAny \/ (e.run = "ret" /\ s.run = "ret"), "S2.shutdown lost, run() goes on">>,
+            <<~(s.pend /\ ~s.shutAny /\ s.run # "exc"), "R2.accepted restart never happened">>,
             <<(e.run = "alive") = (s.run = "run"), "quiet.run state">>,
-            <<s.run # "run" \/ TestOnly(s) \/ (s.ph = "up" /\ s.disc = "open"), "quiet.node neither serves nor has ended">>,
+            <<s.run # "run" \/ TestOnly(s) \/ (s.ph = "up" /\ s.disc = "open"), "quiet.neither serving nor ended">>,
+            <<s.run # "run" \/ TestOnly(s) \/ s.gen \in ToSet(e.discalive), "quiet.no responder thread">>,
             <<s.run # "run" \/ TestOnly(s) \/ (ToSet(e.discopen) = {s.gen} \cup s.oldDisc /\ ToSet(e.polls) = {s.gen}
                                 /\ {p[2] : p \in Pairs(e.listening)} = Listening(s)
                                 /\ \A p \in Pairs(e.listening) : p[1] = s.gen),
-              "quiet.serving node: responder / poller / sockets of exactly the current generation">>,
-            <<s.run = "run" \/ (e.ifalive = <<>> /\ e.listening = <<>>), "S2.interface thread or socket left after the end">>,
-            <<s.run = "run" \/ ~s.shutAny \/ (e.discopen = <<>> /\ e.discalive = <<>>), "S2.discovery responder left after the end">>,
+              "quiet.serving node owns other things">>,
+            <<s.run = "run" \/ (e.ifalive = <<>> /\ e.listening = <<>>), "S2.interface left after the end">>,
+            <<s.run = "run" \/ ~s.shutAny \/ (e.discopen = <<>> /\ e.discalive = <<>>), "S2.responder left after the end">>,
             <<s.run = "run" \/ s.mode = "startexc" \/ ToSet(e.polls) \subseteq s.modsLeft, "S2.poll thread left after the end">>,
             <<s.run # "ret" \/ TestOnly(s) \/ s.ph = "noif" \/ s.downs = 1, "S2.'shut down' not logged">> >>,
       {s})
